@@ -39,6 +39,11 @@ func init() {
 	add([]string{"C17"}, "ValExt", "*(Keeper).setValidatorExternalAddress", "(msgServer).SetDelegateKeys", gen)
 	add([]string{"C17"}, "OrchVal", "*(Keeper).SetOrchestratorValidatorAddress", "(msgServer).SetDelegateKeys", gen)
 	add([]string{"C17"}, "ExtOrch", "*(Keeper).setExternalOrchestratorAddress", "(msgServer).SetDelegateKeys", gen)
+	add([]string{"C02", "C03"}, "Vote", "*(Keeper).setExternalEventVoteRecord", "(Keeper).TryEventVoteRecord", "(Keeper).recordEventVote", gen)
+	add([]string{"C16"}, "Sig", "*(Keeper).SetExternalSignature", "*(Keeper).DeleteExternalSignature", "(msgServer).SubmitTxConfirmation", gen)
+	add([]string{"C04", "C10", "C12"}, "Pool", "*(Keeper).setUnbatchedSendToExternal", "*(Keeper).deleteUnbatchedSendToExternal", "(Keeper).BuildBatchTx", "(Keeper).CancelBatchTx", "(Keeper).cancelSendToExternal", "(Keeper).createSendToExternal", gen)
+	add([]string{"C04", "C13"}, "OutTx", "*(Keeper).SetOutgoingTx", "*(Keeper).DeleteOutgoingTx", "(Keeper).BuildBatchTx", "(Keeper).CancelBatchTx", "(Keeper).CreateContractCallTx", "(Keeper).CreateSignerSetTx", "(Keeper).batchTxExecuted", "cleanupTimedOutContractCallTxs", "pruneSignerSetTxs", gen)
+	add([]string{"C18"}, "OAtt", "*(Keeper).SetAttestation", "*(Keeper).SetAttestationUnsafe", "*(Keeper).DeleteAttestation", "(Keeper).AddClaim", "(Keeper).ProcessCurrentEpoch")
 	add([]string{"C04"}, "LastSteID", "*(Keeper).incrementLastSendToExternalIDKey", "(Keeper).createSendToExternal")
 	add([]string{"C10"}, "LastBatchNonce", "*(Keeper).setLastOutgoingBatchNonce", "*(Keeper).incrementLastOutgoingBatchNonce", "*(Keeper).SetLastOutgoingBatchNonce", "(Keeper).BuildBatchTx", gen)
 	add([]string{"C09"}, "LatestSSNonce", "*(Keeper).incrementLatestSignerSetTxNonce", "*(Keeper).SetLatestSignerSetTxNonce", "(Keeper).CreateSignerSetTx")
